@@ -319,6 +319,20 @@ impl Dfs<'_> {
 
 impl Prop for C05 {
     type Case = Case;
+    fn admissible(case: &Case) -> bool {
+        match case {
+            Case::Random(fc) => crate::props::fw_admissible(fc),
+            Case::Twin { case, .. } => crate::props::fw_admissible(case),
+            Case::Exhaustive { machines, depth, fracs } => {
+                *depth <= 2
+                    && machines.len() <= 2
+                    && (0.0..=1.0).contains(&fracs.0 .0)
+                    && (0.0..=1.0).contains(&fracs.1 .0)
+                    && machines.iter().all(|m| m.states.len() <= 3 && m.all_dists_constant() && m.build().is_ok())
+            }
+        }
+    }
+
     const ID: &'static str = "C05";
     const RULE: &'static str = "three layers. 'exhaustive': for each generated family of 1..=3 small machines (<=3 states, probabilities multiples of 1/4, constant distributions, every action kind, limits, counters, SIGNAL/END targets) ALL histories up to the depth bound over the full event alphabet (10 kinds x ids {each machine, unknown}, the empty batch, up to 36 two-event batches) x clock steps {0,+1,+10^6,-1} x EVERY outcome of every draw are executed in lock-step with the reference semantics (actions, all runtime state and the number/order of random draws compared after every call); 'random': larger random machines (<=6 states, arbitrary probabilities, constant or all distribution families) x histories of <=120 calls with batches in lock-step; 'twin': two identically built instances and a mid-history clone, fed from different threads, must return identical actions. Non-trivial (random/twin): history with >=1 internal event and >=1 draw whose outcome was not the first target; (exhaustive): family in which some draw has >=2 outcomes. Distinct = hash of the case.";
 
